@@ -4,6 +4,7 @@ CONSTANTS
   MaxSpurious = 3
   FORWARD_WAKER = TRUE
   READY_DRAINS = TRUE
+  FILTER_MODE = "none"
   MODE = "sched"
   MaxTok = 0
   MaxPairTok = 0
